@@ -740,6 +740,9 @@ func init() {
 	// concrete string is represented by an empty Query whose source string is kept in a side table;
 	// matching such a query is outside the engine's reach (C19 search half is not applicable).
 	mkQuery := func(m *Machine, fr *frame, a []Value) Value {
+		if m.opts.RealQueries {
+			return fallThrough{}
+		}
 		qp := m.prog.ImportedPackage("github.com/tendermint/tendermint/libs/pubsub/query")
 		cell := new(Value)
 		*cell = zero(qp.Type("Query").Type())
@@ -748,11 +751,17 @@ func init() {
 	}
 	reg("github.com/tendermint/tendermint/libs/pubsub/query.MustParse", mkQuery)
 	reg("github.com/tendermint/tendermint/libs/pubsub/query.New", func(m *Machine, fr *frame, a []Value) Value {
+		if m.opts.RealQueries {
+			return fallThrough{}
+		}
 		return Tuple{mkQuery(m, fr, a), Iface{}}
 	})
 	reg("(*github.com/tendermint/tendermint/libs/pubsub/query.Query).String", func(m *Machine, fr *frame, a []Value) Value {
 		if s, ok := m.side[a[0].(*Value)]; ok {
 			return s
+		}
+		if m.opts.RealQueries {
+			return fallThrough{}
 		}
 		return "<query>"
 	})
